@@ -36,9 +36,24 @@ ASSUMES = [
     "semantic_segmentation (plugin step, no built-in method) is outside the theorem: its right call reads the left "
     "image already updated by the left call",
     "in-place mutation of arguments is given by the hand-written table `mutated` (Model/Mirror.v), audited on every run",
+    "C08_pipeline_* theorems: about the composed model Model/PipelineRun.v (existing step models of C02/C04/C03/C10/C06/C07/"
+    "C14 glued as the run callbacks glue the steps): sad/ssd/census, wta, median filter, vfit/quadratic, "
+    "cross_checking_accurate with/without mc-cnn/sgm; single scale, scalar interval, images without band dimension; NOT "
+    "in the composed model: cbca (real-valued means make the arg-min rounding-sensitive), zncc, bilateral, confidence "
+    "steps, multiscale, disparity grids, plugins -- for those only the abstract theorem and the impl-vs-impl runs apply",
+    "the composed model is tied to the real pandora.run by the pipeline stream (state after every step); a pixel on which "
+    "the refinement kernel is undefined in the model (int(NaN), read outside the axis) ends the comparison of that case "
+    "(counted: pipeline_refinement_undefined_in_model); after a refinement step values are compared with the bridging "
+    "tolerance and a cross-check within 1e-4 of a rounding tie on the real maps ends the comparison (counted)",
+    "the cost volume is modelled as unchanged by the disparity step (C03_restore_after_subst) and interpolated_coeff / "
+    "disp_indices / attrs other than offset, subpixel and the interval are not part of the composed state",
 ]
 TRUSTED = ["Gen/Callbacks.v produced by translator/gen_callbacks.py (ast of the run callbacks)",
-           "hand-written run_prepare slot model (prepare_single/prepare_multi in Proofs/MirrorP.v)"]
+           "hand-written run_prepare slot model (prepare_single/prepare_multi in Proofs/MirrorP.v; init_state in "
+           "Model/PipelineRun.v, exercised with and without a right interval in the input)",
+           "Gen/Flags.v, Gen/RefineConsts.v, Gen/Constants.v (constants given to the extracted composed model, X21)",
+           "the step models reused by Model/PipelineRun.v are tied to the code by their own checks (C02, C03, C04, C06, "
+           "C07, C10, C14) and, composed, by the pipeline stream of this check"]
 
 SLOT_ATTR = ["left_img", "right_img", "left_cv", "right_cv", "left_disparity", "right_disparity",
              "disp_min", "disp_max", "right_disp_min", "right_disp_max",
@@ -194,7 +209,7 @@ def run(ctx):
         return
     run_wiring(ctx)
     if ctx.replay_case is None:
-        c08_pipeline.run_stream(ctx, 80 if ctx.tier == "quick" else 1500)
+        c08_pipeline.run_stream(ctx, 120 if ctx.tier == "quick" else 2000)
 
 
 def run_wiring(ctx):
